@@ -13,7 +13,7 @@ pub fn check(property: &str) -> Option<CheckDef> {
         "C07" => Some(CheckDef {
             property: "C07",
             level: "exploration",
-            parts: vec![part(Box::new(Erased(engines::compile::CompileDeterminism)), 120_000, 2_500_000, "C07", 120)],
+            parts: vec![part(Box::new(Erased(engines::compile::CompileDeterminism)), 120_000, 2_500_000, "C07", 20)],
             assumptions: vec![
                 "shuttle coroutines stand in for OS threads: only the interleaving of object-id allocations and job boundaries is explored, which is the only shared state of compilation (one AtomicU64)",
                 "std HashMap keys are the only unseeded randomness; they are controlled through the getrandom symbol",
@@ -24,9 +24,9 @@ pub fn check(property: &str) -> Option<CheckDef> {
             property: "C18",
             level: "fault_enumeration",
             parts: vec![
-                part(Box::new(Erased(engines::ift::IftFaultFree)), 100_000, 2_000_000, "C02", 60),
-                part(Box::new(Erased(engines::ift::IftFaulty)), 200_000, 4_000_000, "C02", 60),
-                part(Box::new(Erased(engines::ift::IftDecoderEnum)), 15_000, 300_000, "C02", 120),
+                part(Box::new(Erased(engines::ift::IftFaultFree)), 100_000, 2_000_000, "C02", 20),
+                part(Box::new(Erased(engines::ift::IftFaulty)), 200_000, 4_000_000, "C02", 20),
+                part(Box::new(Erased(engines::ift::IftDecoderEnum)), 15_000, 300_000, "C02", 90),
             ],
             assumptions: vec![
                 "the reference model and the IFT encoder are written from the specification and the table layouts, calibrated once against the unchanged tree",
@@ -38,8 +38,8 @@ pub fn check(property: &str) -> Option<CheckDef> {
             property: "C19",
             level: "exploration",
             parts: vec![
-                part(Box::new(Erased(engines::ift::IftFaultFree)), 150_000, 3_000_000, "C02", 60),
-                part(Box::new(Erased(engines::ift::IftFaulty)), 250_000, 5_000_000, "C02", 60),
+                part(Box::new(Erased(engines::ift::IftFaultFree)), 150_000, 3_000_000, "C02", 20),
+                part(Box::new(Erased(engines::ift::IftFaulty)), 250_000, 5_000_000, "C02", 20),
             ],
             assumptions: vec![
                 "intersection and grouping rules are modelled from the property statement and the specification's algorithms; child entries are evaluated regardless of their own ignored flag (calibrated against the unchanged tree)",
@@ -50,8 +50,8 @@ pub fn check(property: &str) -> Option<CheckDef> {
             property: "C12",
             level: "exploration",
             parts: vec![
-                part(Box::new(Erased(engines::drawhist::DrawHistory { stale: false })), 1_500_000, 25_000_000, "C02", 60),
-                part(Box::new(Erased(engines::drawhist::ConcurrentDraws)), 300_000, 6_000_000, "C02", 60),
+                part(Box::new(Erased(engines::drawhist::DrawHistory { stale: false })), 1_500_000, 25_000_000, "C02", 20),
+                part(Box::new(Erased(engines::drawhist::ConcurrentDraws)), 300_000, 6_000_000, "C02", 20),
             ],
             assumptions: vec![
                 "the reference for every draw is a freshly constructed instance of the same configuration with library memory and no location on the same thread",
@@ -62,9 +62,9 @@ pub fn check(property: &str) -> Option<CheckDef> {
             property: "C14",
             level: "exploration",
             parts: vec![
-                part(Box::new(Erased(engines::histmodels::IntSetHistory)), 120_000, 2_500_000, "C14", 60),
-                part(Box::new(Erased(engines::histmodels::SparseBitSetCodec)), 25_000, 500_000, "C14", 60),
-                part(Box::new(Erased(engines::histmodels::RangeSetHistory)), 1_000_000, 20_000_000, "C14", 60),
+                part(Box::new(Erased(engines::histmodels::IntSetHistory)), 120_000, 2_500_000, "C14", 20),
+                part(Box::new(Erased(engines::histmodels::SparseBitSetCodec)), 25_000, 500_000, "C14", 20),
+                part(Box::new(Erased(engines::histmodels::RangeSetHistory)), 1_000_000, 20_000_000, "C14", 20),
             ],
             assumptions: vec![
                 "integer sets are single-owner values: no schedule, clock or I/O exists for them; what is explored is operation histories against a reference model (the fault and schedule axes are empty and reported as such)",
@@ -76,9 +76,9 @@ pub fn check(property: &str) -> Option<CheckDef> {
             property: "C06",
             level: "exploration",
             parts: vec![
-                part(Box::new(Erased(engines::histmodels::FontBuilderHistory)), 1_000_000, 20_000_000, "C06", 60),
-                part(Box::new(Erased(engines::ift::IftFaultFree)), 60_000, 1_200_000, "C02", 60),
-                part(Box::new(Erased(engines::ift::IftFaulty)), 60_000, 1_200_000, "C02", 60),
+                part(Box::new(Erased(engines::histmodels::FontBuilderHistory)), 1_000_000, 20_000_000, "C06", 20),
+                part(Box::new(Erased(engines::ift::IftFaultFree)), 60_000, 1_200_000, "C02", 20),
+                part(Box::new(Erased(engines::ift::IftFaulty)), 60_000, 1_200_000, "C02", 20),
             ],
             assumptions: vec![
                 "the builder has no schedule, clock or I/O of its own: its operation histories are checked against a map model; its outputs under faults are monitored on every font the simulated IFT client emits (decoder, transport, crash and persist faults)",
@@ -88,7 +88,7 @@ pub fn check(property: &str) -> Option<CheckDef> {
         "C13" => Some(CheckDef {
             property: "C13",
             level: "exploration",
-            parts: vec![part(Box::new(Erased(engines::paintmon::PaintMonitor)), 3_000_000, 60_000_000, "C13", 120)],
+            parts: vec![part(Box::new(Erased(engines::paintmon::PaintMonitor)), 3_000_000, 60_000_000, "C13", 20)],
             assumptions: vec![
                 "paint graphs explored are those reachable by corrupting the COLR tables of the corpus colour fonts (misdirected offset slots, paints overwritten with PaintColrGlyph, bit flips, truncation); hand-built exponential DAGs are out of scope",
                 "a traversal that never ends shows up as a worker killed by the per-case wall-clock cap and is confirmed alone with a 10x cap before being reported",
@@ -118,7 +118,7 @@ pub fn check(property: &str) -> Option<CheckDef> {
             parts: {
                 let mut v = c01_parts(2);
                 v.extend(c02_parts(2));
-                v.push(part(Box::new(Erased(engines::paintmon::PaintMonitor)), 500_000, 10_000_000, "C13", 120));
+                v.push(part(Box::new(Erased(engines::paintmon::PaintMonitor)), 500_000, 10_000_000, "C13", 20));
                 v
             },
             assumptions: vec![
@@ -132,19 +132,19 @@ pub fn check(property: &str) -> Option<CheckDef> {
 /// `div` scales the budgets down (C20 runs the same generators in the slower strict build).
 fn c01_parts(div: u64) -> Vec<Part> {
     vec![
-        part(Box::new(Erased(engines::images::ReadImages)), 400_000 / div, 8_000_000 / div, "C01", 120),
-        part(Box::new(Erased(engines::images::ReadEnum { skrifa: false })), 2_800 / div, 11_200 / div, "C01", 300),
-        part(Box::new(Erased(engines::images::SkewedArgs)), 300_000 / div, 6_000_000 / div, "C01", 120),
+        part(Box::new(Erased(engines::images::ReadImages)), 400_000 / div, 8_000_000 / div, "C01", 20),
+        part(Box::new(Erased(engines::images::ReadEnum { skrifa: false })), 2_800 / div, 11_200 / div, "C01", 90),
+        part(Box::new(Erased(engines::images::SkewedArgs)), 300_000 / div, 6_000_000 / div, "C01", 20),
     ]
 }
 
 fn c02_parts(div: u64) -> Vec<Part> {
     vec![
-        part(Box::new(Erased(engines::images::SkrifaImages)), 80_000 / div, 2_000_000 / div, "C02", 120),
-        part(Box::new(Erased(engines::images::ReadEnum { skrifa: true })), 700 / div, 5_600 / div, "C02", 600),
-        part(Box::new(Erased(engines::drawhist::DrawHistory { stale: true })), 600_000 / div, 12_000_000 / div, "C02", 60),
-        part(Box::new(Erased(engines::ift::IftFaultFree)), 50_000 / div, 1_000_000 / div, "C02", 60),
-        part(Box::new(Erased(engines::ift::IftFaulty)), 100_000 / div, 2_000_000 / div, "C02", 60),
+        part(Box::new(Erased(engines::images::SkrifaImages)), 80_000 / div, 2_000_000 / div, "C02", 20),
+        part(Box::new(Erased(engines::images::ReadEnum { skrifa: true })), 700 / div, 5_600 / div, "C02", 90),
+        part(Box::new(Erased(engines::drawhist::DrawHistory { stale: true })), 600_000 / div, 12_000_000 / div, "C02", 20),
+        part(Box::new(Erased(engines::ift::IftFaultFree)), 50_000 / div, 1_000_000 / div, "C02", 20),
+        part(Box::new(Erased(engines::ift::IftFaulty)), 100_000 / div, 2_000_000 / div, "C02", 20),
     ]
 }
 
